@@ -97,6 +97,9 @@ def mutate(obj):
 
 def prep(case, t):
     """the operand a case speaks about: for the unflatten operations a tensor whose rank d holds tuple coordinates (built by flattening ranks d, d+1)"""
+    if case["op"] in ("rawDeepcopy", "rawCopy"):
+        # a raw fiber that belongs to no tensor (also an empty one): its attribute record is its own
+        return proj.build_fiber(case["tree"], default=case.get("fdflt", 0))
     if case["op"] in ("unflatten", "fiberUnflatten"):
         return t.flattenRanks(depth=case.get("d", 0), levels=1, coord_style="tuple")
     if case.get("flat"):
@@ -107,7 +110,7 @@ def prep(case, t):
 
 def value_op(op, t, t2, case):
     d = case.get("d", 0)
-    root = t.getRoot()
+    root = t.getRoot() if isinstance(t, Tensor) else t
     if op == "splitUniform":
         return t.splitUniform(case["step"], depth=d)
     if op == "splitNonUniform":
@@ -158,6 +161,10 @@ def value_op(op, t, t2, case):
         return copy.deepcopy(t)
     if op == "fiberDeepcopy":
         return copy.deepcopy(root)
+    if op == "rawDeepcopy":         # t is a raw (unowned) fiber here
+        return copy.deepcopy(t)
+    if op == "rawCopy":
+        return t.copy()
     if op == "nonEmpty":
         return root.nonEmpty()
     if op == "fromFiberOwned":
